@@ -388,6 +388,9 @@ class TestCmd:
                 op["verbose"] = rng.choice(["-v", "-vv"])    # must not change any outcome
             if rng.random() < 0.006:
                 op["child"] = True     # fidelity: also run this step as a real `python -m bumpver` process
+            if rng.random() < 0.08:
+                # the zone of the machine that runs the release: a --date names a calendar day, not an instant
+                op["tz"] = rng.choice(["JST-9", "NZST-12NZDT", "PST8PDT", "<+14>-14", "<-11>11", "UTC0"])
             if rng.random() < 0.04:
                 op["malformed"] = rng.choice([["--date", "2021-13-45"], ["--date", "yesterday"], ["--tag", "gamma"],
                                               ["--tag", "ALPHA"], ["--date", "2021-02-30"]])
@@ -403,7 +406,7 @@ class TestCmd:
                 op2["flags"] = {a: b for a, b in op["flags"].items() if a != k}
                 cand["ops"] = case["ops"][:i] + [op2] + case["ops"][i + 1:]
                 yield cand
-            for key, val in (("delta", 0), ("date_flag", False), ("sv", None), ("date_and_pin", None)):
+            for key, val in (("delta", 0), ("date_flag", False), ("sv", None), ("date_and_pin", None), ("tz", None)):
                 if op.get(key) not in (val, None):
                     cand = dict(case)
                     op2 = dict(op)
@@ -490,8 +493,10 @@ class TestCmd:
                                                                            bres.out_value("New Version: ")))
             exp = expectation(ctx, tree, state, text, flags, clock, bool(use_date and flags.get("pin_date")))
             nviol = len(ctx.violations)
-            res = invoker.invoke(d, argv, today)
+            res = invoker.invoke(d, argv, today, environ={"TZ": op["tz"]} if op.get("tz") else None)
             ctx.invocations += 1
+            if op.get("tz"):
+                ctx.probe("zone_east_of_utc" if op["tz"] in ("JST-9", "NZST-12NZDT", "<+14>-14") else "zone_other")
             new_text = res.out_value("New Version: ")
             if legacy:
                 # engine-dispatch consistency: the same bump through `update --dry` in a project configured with
